@@ -17,5 +17,6 @@ CONSTANTS
   Script <- MC_NoScript
   ExportMod = 64
   ExportRem = 1
+  ExportSig = TRUE
 INVARIANTS ImplSatisfiesProp HeapSane ContentMatchesSeq UsedExact NoFlags Export
 CHECK_DEADLOCK FALSE
